@@ -247,7 +247,7 @@ func c16RingStr(ring [][2]int) string {
 }
 
 func c16Gen(r *Rng, tier string, emit func(string)) {
-	n := 3000
+	n := 8000
 	if tier == "thorough" {
 		n = 60000
 	}
